@@ -32,6 +32,23 @@ static int run_loop_until(const std::function<bool()> &done, int maxruns = 20000
   return 2000;
 }
 
+// After a request has ended (callback or cancel) the loop keeps running for a while: whatever the library left registered
+// (a stale immediate event, a timer, a descriptor) gets its chance to fire on the finished / freed request.
+static int sentinel_fired;
+static int sentinel_cb(void *) {
+  sentinel_fired = 1;
+  return 0;
+}
+static void settle(const char *what) {
+  if (X->failed) return;
+  sentinel_fired = 0;
+  void *t = shim_timer_register(sentinel_cb, nullptr, 0, 30000);
+  if (!t) return;
+  int rc = run_loop_until([&] { return sentinel_fired != 0; }, 200);
+  if (!sentinel_fired) shim_timer_cancel(t);
+  if (rc != 0 && rc != 2000 && !X->failed) X->fail("events-run-error-after-end", std::string("events_run returned ") + std::to_string(rc) + " while the loop ran on after a finished " + what);
+}
+
 static InItem mk_in(const Op &op) {
   // in: a = {type, delay, err, hup, seed, len}
   InItem it;
@@ -338,7 +355,7 @@ static rc::Gen<Case> gen_rw(int mode, int tier) {
     size_t big = tier ? 300000 : 20000;
     auto lens = rc::gen::weightedOneOf<int64_t>({{5, range<int64_t>(1, 40)},
                                                  {2, range<int64_t>(1, 5000)},
-                                                 {1, rc::gen::elementOf(std::vector<int64_t>{1, 2, 4095, 4096, 4097, 65536})},
+                                                 {1, rc::gen::elementOf(std::vector<int64_t>{1, 2, 4095, 4096, 4097, 32768, 65535, 65536, 65537, 70001, 131073})},
                                                  {1, range<int64_t>(1, (int64_t)big)}});
     int nreq = *rc::gen::weightedElement<int>({{4, 1}, {3, 2}, {2, 3}, {1, 6}});
     int64_t total = 0;
@@ -623,6 +640,7 @@ static Outcome run_connect(const Case &c) {
       x.fail("livelock", "connect did not finish within 20000 loop turns");
     else if (rc != 0)
       x.fail("events-run-error", "events_run returned " + std::to_string(rc));
+    settle("connect request");
   }
   if (!x.failed) {
     char m[400];
@@ -691,7 +709,7 @@ static rc::Gen<Case> gen_connect(int) {
       c.push_back(Op("addr", {kind, delay, *range<int>(0, 4), *range<int>(0, 1)}));
       total += std::min(delay, mode == 1 ? timeo : delay);
     }
-    int64_t cancel = *rc::gen::weightedOneOf<int64_t>({{8, rc::gen::just<int64_t>(-1)}, {1, rc::gen::just<int64_t>(0)}, {2, rc::gen::elementOf(std::vector<int64_t>{50000, 350000, 1500000, 9000000})}});
+    int64_t cancel = *rc::gen::weightedOneOf<int64_t>({{8, rc::gen::just<int64_t>(-1)}, {2, rc::gen::just<int64_t>(0)}, {2, rc::gen::elementOf(std::vector<int64_t>{50000, 350000, 1500000, 9000000})}});
     c.push_back(Op("opt", {mode, timeo, cancel}));
     return c;
   });
@@ -772,6 +790,7 @@ static Outcome run_accept(const Case &c) {
       x.fail("livelock", "accept did not finish");
     else if (rc != 0)
       x.fail("events-run-error", "events_run returned " + std::to_string(rc));
+    if (a.cancelled) settle("accept request");
   }
   if (!x.failed) {
     if (a.cancelled) {
